@@ -30,7 +30,9 @@ def strategy(tier):
     asym = knncase.knn_case(nmax=n, nq=(1, 8), kmax_force=True, modes=("feat",), metrics=["neyman", "pearson", "kullback_leibler", "k_divergence"])
     # ... and the signed ones on non-normalised positive data (KL, K-divergence, statistic, bhattacharyya return negative values there)
     signed = knncase.knn_case(nmax=n, nq=(1, 8), kmax_force=True, modes=("feat",), metrics=["kullback_leibler", "k_divergence", "statistic", "bhattacharyya"], point_kinds=["positive"])
-    return st.one_of(sym, asym, signed)
+    # integer-typed training matrices with real-valued queries (dtype handling inside predict)
+    ints = knncase.knn_case(nmax=n, nq=(2, 8), kmax_force=True, modes=("feat",), metrics=["euclidean", "manhattan", "squared_euclidean", "chebyshev", "log_squared_euclidean"], point_kinds=["lattice"], force_int=True)
+    return st.one_of(sym, asym, signed, ints)
 
 
 def check_predictions(r, case, preds, clusters, tag):
